@@ -122,33 +122,57 @@ def run(tier):
     c.extra['divergences'] = div
     c.extra['by_source'] = {s: sum(1 for e in events if e.get('src', e['ev']) == s) for s in ('gen', 'fq', 'rand', 'fqrand', 'split')}
 
-    # binding self-tests: corrupted copies of accepted observations must be rejected by TLC
+    # binding self-tests: corrupted copies of observations TLC ACCEPTED in the main validation must be rejected by TLC.
+    # When the code under test is wrong and no accepted observation of a kind is left, that part is skipped with a note
+    # (the violations are reported anyway) - a defect of the code is never a machinery failure.
+    import copy
     bad_lines = set(x['line'] for x in r['rejects'])
     good = [e for i, e in enumerate(events) if (i + 1) not in bad_lines and e['ev'] == 'run'
             and any(f['recs'] and f['recs'] != [0] for f in e['final'])
             and all(o['raised'] == 'none' for o in e['ops'])][:3]
     goodsplit = [e for i, e in enumerate(events) if (i + 1) not in bad_lines and e['ev'] == 'split' and e['out']
                  and any(len(o['idx']) > 1 for o in e['out'])][:1]
-    if len(good) == 3 and goodsplit:
+    skipped = []
+
+    def skip_or_fail(what):
+        if r['rejects']:
+            skipped.append(what)
+            print('NOTE: binding self-test (%s) skipped - no accepted observation left to corrupt (violations are reported)' % what)
+        else:
+            raise vlib.MachineryError('no accepted %s observations available for the binding self-test although TLC rejected nothing' % what)
+
+    if len(good) == 3:
         def mut(evs):
             f = [x for x in evs[0]['final'] if x['recs'] and x['recs'] != [0]][0]
             f['recs'] = f['recs'][:-1]                                        # a lost record
             w = [o for o in evs[1]['ops'] if o['op'] == 'w'][-1]
             w['raised'] = 'KeyError'                                          # an unjustified raise (also: record then missing)
             [x for x in evs[2]['final'] if x['recs']][0]['ok'] = False        # invalid gzip
-            o = [x for x in evs[3]['out'] if len(x['idx']) > 1][0]
-            o['idx'] = o['idx'][::-1]                                         # order of a split file reversed
             return evs
 
         p = os.path.join(vlib.scratch(), 'selftest_c19.ndjson')
-        import copy
-        vlib.write_ndjson(p, mut(copy.deepcopy(good + goodsplit)))
+        vlib.write_ndjson(p, mut(copy.deepcopy(good)))
         rr = vlib.validate_trace('Trace_HandleLimiter', p)
         got = sorted((x['line'], x['clause']) for x in rr['rejects'])
-        want = [(1, 'Inv_C19_Content'), (2, 'Inv_C19_Raise'), (3, 'Inv_C19_ValidGzip'), (4, 'Inv_C19_PassesComplete')]
-        c.selftest('corrupt_content_raise_gzip_splitorder', got == want, 'rejects=%s' % got)
+        want = [(1, 'Inv_C19_Content'), (2, 'Inv_C19_Raise'), (3, 'Inv_C19_ValidGzip')]
+        c.selftest('corrupt_content_raise_gzip', got == want, 'rejects=%s' % got)
     else:
-        raise vlib.MachineryError('no accepted observations available for the binding self-test')
+        skip_or_fail('run')
+    if goodsplit:
+        def muts(evs):
+            o = [x for x in evs[0]['out'] if len(x['idx']) > 1][0]
+            o['idx'] = o['idx'][::-1]                                         # order of a split file reversed
+            return evs
+
+        p = os.path.join(vlib.scratch(), 'selftest_c19_split.ndjson')
+        vlib.write_ndjson(p, muts(copy.deepcopy(goodsplit)))
+        rr = vlib.validate_trace('Trace_HandleLimiter', p)
+        got = sorted((x['line'], x['clause']) for x in rr['rejects'])
+        c.selftest('corrupt_split_order', got == [(1, 'Inv_C19_PassesComplete')], 'rejects=%s' % got)
+    else:
+        skip_or_fail('split')
+    if skipped:
+        c.extra['binding_selftest_skipped'] = skipped
     c.assumptions += [
         'descriptor accounting of the injected open(): a handle is open from a successful open() until close() is called on it',
         'handlelimiter.time is a strictly increasing counter in replayed TLC behaviours (real clock in half of the random runs)',
